@@ -34,7 +34,7 @@ def gen_config(r, kind, ents):
     opts = ["-c", comp, "-b", str(bs), "-q"]
     cfg = {"comp": comp, "bs": bs, "env": {}, "store": r.random() < 0.15}
     if r.random() < 0.3:
-        x = {"gzip": ["level=1", "level=9", "window=9"], "xz": ["level=0", "dictsize=8192", "x86"], "lz4": ["hc"],
+        x = {"gzip": ["level=1", "level=9", "window=9"], "xz": ["level=0", "dictsize=8192", "x86", "dictsize=1M", "dictsize=256K", "dictsize=196608", "dictsize=1M,x86"], "lz4": ["hc"],
              "zstd": ["level=1", "level=19"], "lzma": ["level=1"]}[comp]
         opts += ["-X", r.choice(x)]
     j = r.choice([1, 1, 2, 3, 4, 8])
@@ -55,7 +55,7 @@ def gen_config(r, kind, ents):
         cfg["def_mtime"] = r.choice([1, 1500000000, 0xFFFFFFFF])
         cfg["env"]["SOURCE_DATE_EPOCH"] = str(cfg["def_mtime"])
     cfg["force_uid"] = cfg["force_gid"] = None
-    c = r.random()
+    c = r.random() if kind != "packglob" else 1.0
     if c < 0.15:
         opts.append("--all-root")
         cfg["force_uid"] = cfg["force_gid"] = 0
@@ -75,6 +75,20 @@ def gen_config(r, kind, ents):
         cfg["with_x"] = any(e.xattrs for e in ents)
         if cfg["with_x"]:
             opts += ["-A", "xattr.txt"]
+    elif kind == "packglob":
+        # the materialised tree enters through glob lines of a pack file: one line per entry type (directories first), mode / uid / gid
+        # either '*' (keep the source's) or a number that replaces all twelve permission bits / the id of every entry the line adds
+        opts += ["-F", "pack.txt", "-D", "."]
+        cfg["with_x"] = False
+        cfg["keep_time"] = r.random() < 0.6
+        cfg["nohl"] = r.random() < 0.2
+        cfg["glob_mode"] = r.choice([None, None, 0o750, 0o4755, 0o1777, 0o2711, 0o644, 0o7777, 0])
+        cfg["glob_uid"] = r.choice([None, None, 0, 1234, 70000])
+        cfg["glob_gid"] = r.choice([None, None, 0, 4321])
+        tail = (b" -keeptime" if cfg["keep_time"] else b"") + (b" -nohardlinks" if cfg["nohl"] else b"") + b" -- ./tree"
+        ids = b" %s %s" % (b"*" if cfg["glob_uid"] is None else b"%d" % cfg["glob_uid"], b"*" if cfg["glob_gid"] is None else b"%d" % cfg["glob_gid"])
+        m = b"*" if cfg["glob_mode"] is None else b"0%o" % cfg["glob_mode"]
+        cfg["packtext"] = b"".join(b"glob / %s%s -type %s%s\n" % (b"0777" if t == b"l" else m, ids, t, tail) for t in (b"d", b"f", b"l", b"p", b"s", b"c", b"b"))
     else:
         opts += ["-D", "tree"]
         cfg["keep_time"] = r.random() < 0.7
@@ -131,6 +145,15 @@ def expected_for(kind, ents, cfg):
             pass
         exp, groups = treegen.expected_packfile(ents, def_mtime=dm, defaults=d, force_uid=cfg["force_uid"], force_gid=cfg["force_gid"],
                                                 with_xattrs=cfg["with_x"])
+        return exp, groups
+    if kind == "packglob":
+        exp, groups = treegen.expected_packdir(ents, keep_time=cfg["keep_time"], def_mtime=cfg["def_mtime"], with_xattrs=False, hardlinks=not cfg["nohl"])
+        for p, (t, mode, uid, gid, mt, extra, xa) in list(exp.items()):
+            if p == b"":
+                continue
+            if cfg["glob_mode"] is not None and t != treegen.SLINK:
+                mode = cfg["glob_mode"] & 0o7777
+            exp[p] = (t, mode, uid if cfg["glob_uid"] is None else cfg["glob_uid"], gid if cfg["glob_gid"] is None else cfg["glob_gid"], mt, extra, xa)
         return exp, groups
     exp, groups = treegen.expected_packdir(ents, keep_time=cfg["keep_time"], def_mtime=cfg["def_mtime"], with_xattrs=cfg["with_x"],
                                            force_uid=cfg["force_uid"], force_gid=cfg["force_gid"], hardlinks=not cfg["nohl"])
@@ -262,7 +285,7 @@ def work(a):
             os.makedirs(cd)
             r = rng(caseseed, "tree", kind)
             ents = treegen.gen_tree(r, bs=4096, nfiles=prof.get("nfiles", 6), ndirs=prof.get("ndirs", 2), hostile=prof.get("hostile", False),
-                                    specials=prof.get("specials", True), xattrs=("safe" if kind == "packdir" and prof.get("xattrs") else prof.get("xattrs", False)),
+                                    specials=prof.get("specials", True), xattrs=("safe" if kind in ("packdir", "packglob") and prof.get("xattrs") else prof.get("xattrs", False)),
                                     hardlinks=prof.get("hardlinks", False), big=prof.get("big", False), bigdir=prof.get("bigdir", 0),
                                     bigdir_dense=prof.get("bigdir_dense", False))
             zsizes = [3000, 2000, 500, 3500, 1, 4095, 5000, 4096, 2500]
@@ -293,6 +316,9 @@ def work(a):
                 benign = i % 2 == 1
                 plan = gen_plan(rc, cfg, benign)
                 case.argv = cfg["argv"]
+                if cfg.get("packtext") is not None:
+                    with open(os.path.join(cd, "pack.txt"), "wb") as f:
+                        f.write(cfg["packtext"])
                 if cfg["sorttext"] is not None:
                     with open(os.path.join(cd, "sort.txt"), "wb") as f:
                         f.write(cfg["sorttext"])
@@ -320,7 +346,7 @@ def work(a):
                 summ = sqfsdec.tree_summary(img)
                 exp, groups = expected_for(kind, ents, cfg)
                 diffs = treegen.compare_tree(exp, groups, summ)
-                if kind == "packdir":
+                if kind in ("packdir", "packglob"):
                     diffs = [d for d in diffs if not d.startswith("b'': ")]  # root attributes come from the pack dir itself
                 if diffs:
                     res["viol"].append(dict(spec, clause="tree-differs:" + re.sub(r"b'.*?'|\d+", "_", diffs[0])[:60], detail="; ".join(diffs[:4])))
@@ -478,6 +504,9 @@ def explore(prop, seed, t, bdir):
         for prof, n in PROFILES:
             for i in range(n * mult):
                 items.append((bdir, derive(seed, prop, kind, json.dumps(prof, sort_keys=True), i) >> 1, kind, prof, nconf))
+    for prof, n in PROFILES[:4]:
+        for i in range(max(1, n // 2) * mult):
+            items.append((bdir, derive(seed, prop, "packglob", json.dumps(prof, sort_keys=True), i) >> 1, "packglob", prof, nconf))
     return list(pmap_unordered(work, items)), items
 
 
